@@ -167,7 +167,7 @@ def main(prop: str, tier: str, seed: int, only: str | None = None, record: str |
     from . import rxstub
 
     if record:
-        _record(prop, results, record)
+        os.environ["VERIF_RECORD"] = record
     nmax = max((n for t in tasks if "rules" in t for _r, nks in t["rules"] for n, _ in nks), default=0)
     return core.finish(
         prop,
